@@ -54,7 +54,7 @@ func c11Cases(seed uint64, tier string) []core.Case {
 	}
 	var out []core.Case
 	for i := 0; i < n; i++ {
-		out = append(out, core.MkCase(fmt.Sprintf("C11-%03d", i), c11Spec{Seed: rng.Uint64(), Steps: 50 + rng.IntN(50), ValSlash: i%3 == 2}))
+		out = append(out, core.MkCase(fmt.Sprintf("C11-%03d", i), c11Spec{Seed: rng.Uint64(), Steps: 50 + rng.IntN(50), ValSlash: i%3 != 0}))
 	}
 	return out
 }
@@ -219,6 +219,17 @@ func (r *c11Run) run() {
 	for step := 0; step < r.spec.Steps && r.res.Inconclusive == ""; step++ {
 		a := r.accts[r.rng.IntN(len(r.accts))]
 		v := r.vals[r.rng.IntN(len(r.vals))]
+		if r.spec.ValSlash && (step == 2 || step == 8) {
+			// an early slash, so that most of the history runs at a share/token rate below one
+			// (delegations made afterwards get fractional shares)
+			if vi := 1 + step/8; !c.Absent[vi] {
+				c.DoubleSign(vi)
+				r.res.Count("validator_slashes", 1)
+				if !r.block() {
+					return
+				}
+			}
+		}
 		switch x := r.rng.IntN(100); {
 		case x < 14:
 			r.delegate(a, v, chain.FX(int64(1+r.rng.IntN(5000))))
